@@ -14,7 +14,9 @@ RULE = ("(a) exhaustive: every flow grid of shape 1x1..2x2 (thorough adds "
         "(distinct powers of a base so that every subset sum is distinct); "
         "(b) Hypothesis: acyclic forests and uniform random grids up to "
         "12x12 (thorough 40x40) with fields default / constant / random "
-        "positive / with zeros and negatives / integer dtype, flow grids of "
+        "positive / with zeros and negatives / integer dtype / stored as uint8, "
+        "int8, int16, uint16, bool or float32 over the whole range of the "
+        "type, flow grids of "
         "dtype int64/int32/float64, no-data values, nprint 0/1/100, capped "
         "max_accumulated_cells and cyclic grids for the termination clause. "
         "Oracle: graph model - acc[c] = sum of field over cells whose walk "
@@ -172,8 +174,27 @@ def random_case(draw, tier):
                                               "majority", "uniform")))
     n = c["shape"][0] * c["shape"][1]
     kind = draw(st.sampled_from(["none", "const", "positive", "positive",
-                                 "signed", "signed", "int", "int"]))
+                                 "signed", "signed", "int", "int", "narrow",
+                                 "narrow"]))
     c["fkind"] = kind
+    if kind == "narrow":
+        # fields stored in a narrow type (masks, 8/16-bit rasters, float32):
+        # the sums leave the range / the precision of the field's own type
+        dt, lo, hi, nds = draw(st.sampled_from([
+            ("uint8", 0, 255, [255., 0.]), ("int8", -128, 127, [-1., -128.]),
+            ("int16", -32768, 32767, [-9999., -1.]),
+            ("uint16", 0, 65535, [0., 65535.]), ("bool", 0, 1, [0.]),
+            ("float32", None, None, [-9999., float("nan")]),
+            ("uint8", 1, 1, [255.]), ("float32", None, None, [-1.])]))
+        c["fdt"] = dt
+        if dt == "float32":
+            c["field"] = [float(np.float32(v)) for v in draw(st.lists(
+                st.floats(0.0009765625, 1e3, width=32), min_size=n, max_size=n))]
+        else:
+            c["field"] = [float(v) for v in draw(st.lists(
+                st.one_of(st.integers(lo, hi), st.sampled_from([lo, hi, hi])),
+                min_size=n, max_size=n))]
+        c["nodata_narrow"] = draw(st.sampled_from(nds))
     if kind == "const":
         c["field"] = [draw(st.sampled_from([1., 2.5, -1., 0.]))] * n
     elif kind == "positive":
@@ -202,8 +223,13 @@ def random_oracle(case):
     field = None
     if case["fkind"] != "none":
         dt = np.int64 if case["fkind"] == "int" else np.float64
+        if case["fkind"] == "narrow":
+            dt = np.dtype(case["fdt"]).type
+            labels.add(f"field-dtype:{case['fdt']}")
         field = np.array(case["field"], dtype=dt).reshape(nr, nc)
     nodata = case["nodata"]
+    if case["fkind"] == "narrow":
+        nodata = case["nodata_narrow"]
     if case["fkind"] == "int" and np.isnan(nodata):
         nodata = -9999.
     geoms = GEOMS[(len(case["fd"]) + int(case["nprint"]) + nr) % len(GEOMS)] \
@@ -226,6 +252,9 @@ def enum_large(tier):
     for nr, nc in shapes:
         for fk in ("unit", "pattern"):
             yield {"nrows": nr, "ncols": nc, "field": fk}
+        if nr * nc <= 60000:
+            for fk in ("mask-uint8", "mask-bool", "float32"):
+                yield {"nrows": nr, "ncols": nc, "field": fk}
 
 
 def large_oracle(case):
@@ -240,11 +269,21 @@ def large_oracle(case):
     r, c = np.meshgrid(np.arange(nr), np.arange(nc), indexing="ij")
     if case["field"] == "unit":
         field, f = None, np.ones((nr, nc))
+    elif case["field"] in ("mask-uint8", "mask-bool"):
+        # a mask of flagged cells stored in one byte: counts go beyond 255
+        dt = np.uint8 if case["field"] == "mask-uint8" else np.bool_
+        field = ((r * 7 + c * 3) % 11 != 0).astype(dt)
+        f = field.astype(np.float64)
+    elif case["field"] == "float32":
+        field = (((r * 7 + c * 3) % 11 + 1) * np.float32(0.1)).astype(
+            np.float32)
+        f = field.astype(np.float64)
     else:
         # zeros, negatives and fractions
         f = ((r * 7 + c * 3) % 11 - 2) * 0.25
         field = f.copy()
-    nodata = -9999.
+    nodata = -9999. if case["field"] not in ("mask-uint8", "mask-bool") \
+        else 0.
     g, ta, accg = run_accumulate(fd, field, nodata, np.int64, 10**9, -1)
     acc = np.asarray(accg.data, dtype=np.float64)
     exp = np.cumsum(f, axis=1)
